@@ -436,7 +436,8 @@ def run(repo, rep, tier):
                         'a callback call is not inside try/except Exception:'
                         ' a raising callback prevents the following '
                         'callbacks / kills the delivery thread')
-    mut = [n for n in walk_no_nested(addcb.node) if isinstance(n, ast.Call)
+    addcb_f = Flat(addcb, aliases=True)
+    mut = [n for n in walk_no_nested(addcb_f.node) if isinstance(n, ast.Call)
            and isinstance(n.func, ast.Attribute) and
            norm(n.func.value) == 'self._callbacks']
     ok = mut and all(c.func.attr == 'append' for c in mut)
@@ -451,7 +452,7 @@ def run(repo, rep, tier):
     # the callback twice and every indication is delivered to it twice)
     from ..cfg import stmt_facts as _sf16
     pcb = [p_ for p_ in addcb.params if p_ != 'self'][0]
-    for st_, (fs_, _t) in _sf16(addcb.node).items():
+    for st_, (fs_, _t) in _sf16(addcb_f.node).items():
         if not (isinstance(st_, ast.Expr) and
                 isinstance(st_.value, ast.Call) and
                 isinstance(st_.value.func, ast.Attribute) and
@@ -459,13 +460,14 @@ def run(repo, rep, tier):
                 norm(st_.value.func.value) == 'self._callbacks'):
             continue
         r5.sites += 1
+        from ..cfg import GuardWalker as _GW16
         guarded = any(
             isinstance(t_, ast.Compare) and len(t_.ops) == 1 and
             norm(t_.left) == pcb and
             norm(t_.comparators[0]) == 'self._callbacks' and
             ((isinstance(t_.ops[0], ast.NotIn) and pol_) or
              (isinstance(t_.ops[0], ast.In) and not pol_))
-            for t_, pol_ in fs_)
+            for t0_, p0_ in fs_ for t_, pol_ in _GW16._atoms(t0_, p0_))
         r5.ob(guarded, 'add_callback:once')
         if not guarded:
             rep.finding(r5, addcb.qualname, norm(st_, 60), 'registered-twice',
